@@ -17,7 +17,7 @@
 #include "decode.h"
 #include <stdio.h>
 
-bool small;                     /* referenced via main.h externs; unused */
+#include "globals.h"
 
 static void *tt_pool;
 
